@@ -30,10 +30,19 @@ def gen_args(r):
         else: args.append(r.choice(FLAGS))
     return args
 
-CONFIGS = [None, "", "decimal-separator-style = \"comma\"\n", "prompt = \"> \"\nunknown-key = 5\n", "this is not toml = = =", "coulomb-and-farad = true\n",
-           "enable-colors = false\nmax-history-size = 10\n", "[[custom-units]]\nsingular = \"smoot\"\nplural = \"smoots\"\ndefinition = \"67 inches\"\n",
-           "decimal-separator-style = \"comma\"\ndecimal-separator-style = \"dot\"\n", "enable-colors = \"yes\"\n", "unknown-settings = \"ignore\"\nfoo = [1,2]\n",
-           "\xff\xfe broken".encode("latin1"), "[colors]\nnumber = { foreground = \"red\" }\n", "exchange-rate-source = \"nowhere\"\n", "foo = { a = 1 }\nbar = true\n"]
+# (config file contents | None = absent, is it a well-formed file whose recognised keys must be applied?)
+CONFIGS = [(None, False), ("", True), ("decimal-separator-style = \"comma\"\n", True), ("prompt = \"> \"\nunknown-key = 5\n", True), ("this is not toml = = =", False),
+           ("coulomb-and-farad = true\n", True), ("enable-colors = false\nmax-history-size = 10\n", True),
+           ("[[custom-units]]\nsingular = \"smoot\"\nplural = \"smoots\"\ndefinition = \"67 inches\"\n", True),
+           ("decimal-separator-style = \"comma\"\ndecimal-separator-style = \"dot\"\n", False), ("enable-colors = \"yes\"\n", False),
+           ("unknown-settings = \"ignore\"\nfoo = [1,2]\n", True), ("\xff\xfe broken".encode("latin1"), False), ("[colors]\nnumber = { foreground = \"red\" }\n", True),
+           ("exchange-rate-source = \"nowhere\"\n", False), ("foo = { a = 1 }\nbar = true\n", True),
+           # unknown keys of every TOML value type next to a recognised, observable setting
+           ("decimal-separator-style = \"comma\"\nunknown-int = 5\n", True), ("unknown-bool = true\ndecimal-separator-style = \"comma\"\n", True),
+           ("decimal-separator-style = \"comma\"\nunknown-array = [1, 2]\n", True), ("coulomb-and-farad = true\nunknown-str = \"x\"\nunknown-float = 1.5\n", True),
+           ("decimal-separator-style = \"comma\"\n[unknown-table]\na = 1\n", True),
+           ("rounding-digits = 12\n[[custom-units]]\nsingular = \"smoot\"\nplural = \"smoots\"\ndefinition = \"67 inches\"\n", True),
+           ("coulomb-and-farad = 1\n", False), ("decimal-separator-style = \"semicolon\"\n", False)]
 
 def run_fend(fend, d, args, config, stdin=None):
     cfg = os.path.join(d, "cfg")
@@ -129,7 +138,9 @@ def run(ctx):
     t1 = time.time()
     cfg_cases = []
     probes = [["3/2"], ["1 C + 1 coulomb"], ["2 smoots to inches"], ["1 + 1"]]
-    for ci, cfg in enumerate(CONFIGS):
+    wf = {}
+    for ci, (cfg, wellformed) in enumerate(CONFIGS):
+        wf[cfg] = wellformed
         for pr in probes:
             cfg_cases.append((cfg, pr, None))
     for s in ["1 + 1", "x = 3; x * 2", "1/0", "", "@no_trailing_newline 7", "a = 2\n"]:
@@ -145,8 +156,7 @@ def run(ctx):
     def expect_cfg(cfg, expr):
         comma = coulomb = smoot = False
         if isinstance(cfg, str):
-            wellformed = cfg in (CONFIGS[2], CONFIGS[3], CONFIGS[5], CONFIGS[6], CONFIGS[7], CONFIGS[10], CONFIGS[12], CONFIGS[14], "")
-            if wellformed:
+            if wf.get(cfg):
                 comma = "\"comma\"" in cfg; coulomb = "coulomb-and-farad = true" in cfg; smoot = "smoot" in cfg
         if expr == "3/2": return (0, "1,5\n" if comma else "1.5\n")
         if expr == "1 + 1": return (0, "2\n")
@@ -174,7 +184,7 @@ def run(ctx):
                                           "spec": "standard input (not a terminal) is evaluated as one expression"})
     ctx.record_stream("cli-config", "absent / empty / malformed / non-UTF-8 / duplicate-key / ill-typed / unknown-key / custom-unit / comma / coulomb configs x probe expressions; stdin mode",
                       len(cfg_cases), len(cfg_cases), cd, [str(c)[:80] for c in cfg_cases[:3]], time.time() - t1)
-    return ctx.finish(rule="argument lists drawn from a token grammar; configs from a fixed table of 15 well-formed and damaged files x 4 probes; distinct = distinct cases")
+    return ctx.finish(rule="argument lists drawn from a token grammar; configs from a fixed table of 23 well-formed and damaged files x 4 probes; distinct = distinct cases")
 
 def replay(ctx, rep):
     print(rep["first"])
